@@ -160,9 +160,9 @@ def run(tier, seed):
     plan.append(("thr", ["readers", 12, 300000], None, ""))
     for i in range(300 if q else 20000):
         nt = [2, 4, 8, 16][i % 4]
-        plan.append(("thr", ["seed", nt, 1], {"VF_SEED_MODE": "barrier:%d" % nt}, ""))
+        plan.append(("thr", ["seed", nt, 1 + (i // 4) % 2], {"VF_SEED_MODE": "barrier:%d" % nt}, ""))   # (every other group of trials re-selects the default string hash before the late look)
     for i in range(24 if q else 400):
-        plan.append(("thr", ["seed", [1, 2, 4, 8][i % 4], 1], {"VF_SEED_MODE": "minus1"}, ""))
+        plan.append(("thr", ["seed", [1, 2, 4, 8][i % 4], 1 + (i // 4) % 2], {"VF_SEED_MODE": "minus1"}, ""))
     plan.append(("tsan", ["seed", 4, 1], {"VF_SEED_MODE": "minus1"}, ""))
     sh = core.parallel(job, seed=seed, tier=tier, exes=exes, plan=plan)
     chk.absorb(sh)
